@@ -14,6 +14,7 @@ import Props.C12
 import Props.C17
 import Props.C20
 import TextwrapModel.Indent
+import Lemmas.Smawk
 namespace TW.C04
 
 /-! ### entry points without any panic site (total by construction) -/
@@ -154,6 +155,42 @@ theorem columns_total (env : Env) (mo : MinimaOracle Int) (hmo : MoShape mo) (o 
   obtain ⟨⟨ls, hls⟩, _⟩ := wrap_total env mo hmo
     { o with width := TW.C20.columnWidth env.cw o.width columns left middle right } hb hsep text
   exact ⟨_, TW.C20.columns_rows env mo o text columns left middle right hc ls hls⟩
+
+/-! ### without the `smawk` contract: the model runs `smawk`'s own algorithm
+
+`TextwrapModel/Smawk.lean` models `smawk::online_column_minima` and `smawk_inner` (every
+index, both assertions of the `m!` macro and the `size - 1` underflow are explicit `none`s) and
+the closure `wrap_optimal_fit` passes to it (`LineNumbers::get` included). For ANY matrix — no
+monotonicity, IEEE doubles with NaN — the algorithm returns normally with well-shaped rows
+(`Lemmas/Smawk.lean`), so the `MoShape` hypotheses above are theorems for the model's own
+minima. The driver runs this model next to the rows recorded from the real `smawk` on every
+optimal-fit case (`smawk=1` in the reply). -/
+
+-- `smawk_inner` never panics, whatever the matrix
+-- @audit TW.smawkInner_spec
+-- `online_column_minima` never panics, whatever the matrix; `size` entries, rows point back
+-- @audit TW.onlineColumnMinima_spec
+
+/-- `wrap_optimal_fit` with its own `smawk`: never a panic, for any number type -/
+-- @audit TW.C04.optimalFit_own_no_panic
+theorem optimalFit_own_no_panic {α : Type} [CostNum α] {β : Type} (m : β → Frag α) (pen : Penalties)
+    (frs : List β) (lws : List α) : (wrapOptimalFit m pen frs lws).1 ≠ .panic := by
+  rcases wrapOptimalFit_partition m pen frs lws with h | ⟨ls, h, _⟩ <;> rw [h] <;> intro h' <;> cases h'
+
+/-- the model's own minima satisfy the shape contract -/
+-- @audit TW.C04.ownMinima_moShape
+theorem ownMinima_moShape (pen : Penalties) : MoShape (ownMinima (α := Int) pen) :=
+  fun frs lws => ownMinima_rowsShape pen frs lws
+
+/-- **`wrap` and `fill` are total with the model's own `smawk`** — no contract left for totality -/
+-- @audit TW.C04.wrap_total_own
+theorem wrap_total_own (env : Env) (pen : Penalties) (o : Opts) (hb : Builtin o.splitter)
+    (hsep : o.sep = .ascii ∨ ∀ line : Text, ∀ o' ∈ env.opps (stripAnsi line), o' < blen (stripAnsi line) →
+      ∃ l r, stripAnsi line = l ++ r ∧ blen l = o')
+    (text : Text) :
+    (∃ ls, wrap env (ownMinima (α := Int) pen) o text = some ls) ∧
+    (∃ s, fill env (ownMinima (α := Int) pen) o text = some s) :=
+  wrap_total env _ (ownMinima_moShape pen) o hb hsep text
 
 -- **`fill_inplace`** (re-export of C17)
 -- @audit TW.C17.inplace_total
